@@ -492,22 +492,28 @@ def load_edit_scenarios(ctx, out):
 
 # ---- 2. name-based fragments of metamodel elements while the metamodel is edited ----
 
-# one pool of names per kind and disjoint pools: siblings of different kinds with the same name (a classifier named
-# like a sub-package, a feature named like an operation) are legal Ecore and legitimately ambiguous; not generated
+# Names are unique among the eContents of ONE element: two children of one element with the same name (a classifier
+# named like a sub-package, a feature named like an operation of the same class) are legal Ecore and legitimately
+# ambiguous; not generated (classifiers and sub-packages draw from disjoint pools).  The members of a class (features,
+# operations, type parameters) draw from ONE pool, so that members of different kinds of DIFFERENT classes share
+# names -- in particular an operation / type parameter named like a feature inherited from a (transitive) super
+# type and a feature named like a super type's operation: '#//Circle/area' and '#//Shape/area' are not ambiguous.
+# (Two FEATURES of one inheritance line with the same name are invalid Ecore: not generated.)
+MM_MEMBERS = ['x', 'y', 'z', 'ref', 'val', 'label', 'run', 'area']
 MM_NAMES = {'classifier': ['A', 'B', 'C', 'D', 'Item', 'Order', 'Kind', 'Money'],
             'package': ['sub', 'inner', 'deep', 'aux'],
-            'feature': ['x', 'y', 'z', 'ref', 'val', 'label'],
-            'operation': ['run', 'stop', 'compute'],
+            'feature': MM_MEMBERS, 'operation': MM_MEMBERS, 'typeparameter': MM_MEMBERS,
             'literal': ['l0', 'l1', 'l2', 'RED', 'GREEN'],
-            'parameter': ['p', 'q', 'r'],
-            'typeparameter': ['T', 'U']}
+            'parameter': ['p', 'q', 'x', 'area']}
 
 
 def metamodel_edit_scenarios(ctx, out):
     """a package tree (nested sub-packages, one or two roots) in a resource -- built in memory or loaded from an
     .ecore document -- is edited: classifiers/members added, renamed in place, removed, re-added under a name used
-    before, names swapped, classifiers moved to another package; fragments are resolved before the edits and after
-    every edit every named element reachable from the roots must be what its fragment resolves to."""
+    before, names swapped, classifiers moved to another package, super types added and removed (operations and type
+    parameters named like inherited features, features named like inherited operations); fragments are resolved
+    before the edits and after every edit every named element reachable from the roots must be what its fragment
+    resolves to."""
     import os
     import tempfile
     common.use_repo()
@@ -516,7 +522,8 @@ def metamodel_edit_scenarios(ctx, out):
     rng = common.rng_for(ctx.seed, 'C11:metamodel_edit')
     n_cases = 110 if ctx.tier != 'thorough' else 1500
     cov = {'metamodels': 0, 'loaded_from_ecore': 0, 'edits': 0, 'resolutions': 0, 'by_edit': {}, 'abandoned': 0,
-           'names_reused': 0, 'two_root_states': 0, 'abandoned_on': []}
+           'names_reused': 0, 'two_root_states': 0, 'abandoned_on': [],
+           'inherited_name_clash_states': 0, 'inherited_name_clash_elements': 0}
     samples = []
     uid = [0]
 
@@ -544,6 +551,81 @@ def metamodel_edit_scenarios(ctx, out):
         used = {c.name for c in siblings(parent)}
         return [n for n in MM_NAMES[kind] if n not in used]
 
+    def anc(c):
+        """c and its transitive super types"""
+        seen, todo = [], [c]
+        while todo:
+            k = todo.pop(0)
+            if not any(k is x for x in seen):
+                seen.append(k)
+                todo += list(k.eSuperTypes)
+        return seen
+
+    def closure(classes):
+        u = []
+        for c in classes:
+            for k in anc(c):
+                if not any(k is x for x in u):
+                    u.append(k)
+        return u
+
+    def feat_names(classes, skip=None):
+        return {f.name for k in classes for f in k.eStructuralFeatures if f is not skip}
+
+    def other_names(classes):
+        return {m.name for k in classes for m in list(k.eOperations) + list(k.eTypeParameters)}
+
+    def lines_through(c, U):
+        """the classes of every inheritance line c belongs to: the ancestors of every descendant of c"""
+        rel = []
+        for d in U:
+            if any(c is a for a in anc(d)):
+                rel += [k for k in anc(d) if not any(k is x for x in rel)]
+        return rel
+
+    def member_name_ok(c, kind, name, U, skip=None):
+        if name in {m.name for m in siblings(c) if m is not skip}:
+            return False
+        return kind != 'feature' or name not in feat_names(lines_through(c, U), skip)
+
+    def mro_ok(U, override=None, new_bases=None):
+        """would Python linearise the class graph (after giving id(c) -> super types of `override`)?"""
+        override = override or {}
+        built = {}
+
+        def mk(k, depth=0):
+            if id(k) not in built:
+                if depth > 40:
+                    raise TypeError('cycle')
+                bases = tuple(mk(b, depth + 1) for b in override.get(id(k), list(k.eSuperTypes))) or (object,)
+                built[id(k)] = type('K', bases, {})
+            return built[id(k)]
+        try:
+            for k in U:
+                mk(k)
+            if new_bases:
+                type('K', tuple(mk(b) for b in new_bases), {})
+            return True
+        except TypeError:
+            return False
+
+    def super_ok(c, sup, U):
+        if any(c is a for a in anc(sup)) or any(sup is x for x in c.eSuperTypes):
+            return False
+        for d in U:
+            if any(c is a for a in anc(d)):
+                have = anc(d)
+                extra = [k for k in anc(sup) if not any(k is x for x in have)]
+                if feat_names(extra) & feat_names(have):
+                    return False
+        return mro_ok(U, {id(c): list(c.eSuperTypes) + [sup]})
+
+    def pick(names, liked):
+        """a name, preferably one that clashes (across kinds) with a member of a related class"""
+        names = list(names)
+        good = [n for n in names if n in liked]
+        return rng.choice(good) if good and rng.random() < 0.65 else rng.choice(names)
+
     with tempfile.TemporaryDirectory() as td:
         for it in range(n_cases):
             tags = {}
@@ -566,18 +648,44 @@ def metamodel_edit_scenarios(ctx, out):
                 everused.setdefault(id(pkg), set()).add(name)
 
             def make_class(name, classes):
-                c = E.EClass(name)
-                for fn in rng.sample(MM_NAMES['feature'], rng.randrange(0, 4)):
+                sups = []
+                U = closure(classes)
+                for sup in rng.sample(classes, min(len(classes), rng.choice([0, 1, 1, 2]))):
+                    have = closure(sups)
+                    extra = [k for k in anc(sup) if not any(k is x for x in have)]
+                    if feat_names(extra) & feat_names(have) or not mro_ok(U, new_bases=sups + [sup]):
+                        continue
+                    sups.append(sup)
+                c = E.EClass(name, superclass=tuple(sups))
+                up = closure(sups)
+                inh_f, inh_o = feat_names(up), other_names(up)
+                used = set()
+                for _ in range(rng.randrange(0, 4)):
+                    free = [n for n in MM_MEMBERS if n not in used and n not in inh_f]
+                    if not free:
+                        break
+                    fn = pick(free, inh_o)            # a feature named like an operation of a super type
+                    used.add(fn)
                     if classes and rng.random() < 0.5:
                         c.eStructuralFeatures.append(E.EReference(fn, rng.choice(classes), upper=rng.choice([1, -1])))
                     else:
                         c.eStructuralFeatures.append(E.EAttribute(fn, rng.choice([E.EString, E.EInt, E.EBoolean])))
-                for on in rng.sample(MM_NAMES['operation'], rng.choice([0, 0, 1, 2])):
+                for _ in range(rng.choice([0, 1, 1, 2])):
+                    free = [n for n in MM_MEMBERS if n not in used]
+                    if not free:
+                        break
+                    on = pick(free, inh_f)            # an operation named like an inherited feature
+                    used.add(on)
                     op = E.EOperation(on)
                     for pn in rng.sample(MM_NAMES['parameter'], rng.randrange(0, 3)):
                         op.eParameters.append(E.EParameter(pn, E.EString))
                     c.eOperations.append(op)
-                for tn in rng.sample(MM_NAMES['typeparameter'], rng.choice([0, 0, 0, 1, 2])):
+                for _ in range(rng.choice([0, 0, 0, 1, 2])):
+                    free = [n for n in MM_MEMBERS if n not in used]
+                    if not free:
+                        break
+                    tn = pick(free, inh_f)
+                    used.add(tn)
                     c.eTypeParameters.append(E.ETypeParameter(tn))
                 return c
 
@@ -644,6 +752,13 @@ def metamodel_edit_scenarios(ctx, out):
                 if not full:
                     only = [o for o in objs if rng.random() < 0.4]
                 cov['two_root_states'] += len(res.contents) > 1
+                clash = 0
+                for c in objs:
+                    if isinstance(c, E.EClass) and len(c.eSuperTypes):
+                        up = [k for k in anc(c) if k is not c]
+                        clash += len(other_names([c]) & feat_names(up)) + len(feat_names([c]) & other_names(up))
+                cov['inherited_name_clash_states'] += clash > 0
+                cov['inherited_name_clash_elements'] += clash
                 n, bad = _check_resolution(res, objs, label, only=only)
                 cov['resolutions'] += n
                 if bad:
@@ -665,7 +780,8 @@ def metamodel_edit_scenarios(ctx, out):
             for step in range(rng.randrange(3, 11)):
                 kind = rng.choice(['add', 'add', 'rename', 'rename', 'rename-member', 'remove', 'remove', 'readd', 'readd',
                                    'swap', 'swap', 'swap-members', 'move', 'move', 'takeover', 'takeover', 'rename-package',
-                                   'add-member', 'remove-member', 'move-member', 'root', 'move-package', 'back'])
+                                   'add-member', 'add-member', 'remove-member', 'move-member', 'root', 'move-package', 'back',
+                                   'add-super', 'add-super', 'add-super', 'remove-super', 'rename-member'])
                 if pending:
                     kind = 'add'
                 elif limbo and rng.random() < 0.2:
@@ -675,6 +791,7 @@ def metamodel_edit_scenarios(ctx, out):
                     N = named()
                     P = [o for o in N if isinstance(o, E.EPackage)]
                     C = [o for o in N if isinstance(o, E.EClassifier)]
+                    U = closure([c for c in C + limbo if isinstance(c, E.EClass)])
                     if kind == 'add':
                         if pending:
                             pkg, name = pending
@@ -718,10 +835,16 @@ def metamodel_edit_scenarios(ctx, out):
                         if not ms:
                             continue
                         m = rng.choice(ms)
-                        free = free_names(m.eContainer(), kind_of(m))
+                        owner = m.eContainer()
+                        if isinstance(owner, E.EClass):      # "rename into the clash" with a related class's member
+                            free = [n for n in MM_MEMBERS if member_name_ok(owner, kind_of(m), n, U, skip=m)]
+                            rel = [k for k in lines_through(owner, U) if k is not owner]
+                            liked = other_names(rel) if kind_of(m) == 'feature' else feat_names(rel)
+                        else:
+                            free, liked = free_names(owner, kind_of(m)), ()
                         if not free:
                             continue
-                        new = rng.choice(free)
+                        new = pick(free, liked)
                         h = ['rename-member', tag(m), m.name, new]
                         m.name = new
                     elif kind == 'remove':
@@ -774,6 +897,9 @@ def metamodel_edit_scenarios(ctx, out):
                             continue
                         o = rng.choice(owners)
                         a, b = rng.sample(siblings(o), 2)
+                        if isinstance(o, E.EClass) and not (member_name_ok(o, kind_of(a), b.name, U, skip=b) and
+                                                            member_name_ok(o, kind_of(b), a.name, U, skip=a)):
+                            continue
                         h = ['swap-members', tag(a), a.name, tag(b), b.name]
                         a.name, b.name = b.name, a.name
                     elif kind == 'move':
@@ -826,20 +952,26 @@ def metamodel_edit_scenarios(ctx, out):
                             m = E.EEnumLiteral(name=rng.choice(free), value=len(c.eLiterals))
                             h = ['add-member', tag(c), 'literal', m.name, tag(m)]
                             c.eLiterals.append(m)
-                        elif rng.random() < 0.6:
-                            free = free_names(c, 'feature')
-                            if not free:
-                                continue
-                            m = E.EAttribute(rng.choice(free), E.EString)
-                            h = ['add-member', tag(c), 'feature', m.name, tag(m)]
-                            c.eStructuralFeatures.insert(rng.randrange(len(c.eStructuralFeatures) + 1), m)
                         else:
-                            free = free_names(c, 'operation')
+                            mk = rng.choice(['feature', 'feature', 'operation', 'operation', 'typeparameter'])
+                            free = [n for n in MM_MEMBERS if member_name_ok(c, mk, n, U)]
                             if not free:
                                 continue
-                            m = E.EOperation(rng.choice(free))
-                            h = ['add-member', tag(c), 'operation', m.name, tag(m)]
-                            c.eOperations.append(m)
+                            rel = [k for k in lines_through(c, U) if k is not c]
+                            new = pick(free, other_names(rel) if mk == 'feature' else feat_names(rel))
+                            if mk == 'feature':
+                                m = E.EAttribute(new, E.EString)
+                                coll = c.eStructuralFeatures
+                            elif mk == 'operation':
+                                m = E.EOperation(new)
+                                if rng.random() < 0.5:
+                                    m.eParameters.append(E.EParameter(rng.choice(MM_NAMES['parameter']), E.EString))
+                                coll = c.eOperations
+                            else:
+                                m = E.ETypeParameter(new)
+                                coll = c.eTypeParameters
+                            h = ['add-member', tag(c), mk, m.name, tag(m)]
+                            coll.insert(rng.randrange(len(coll) + 1), m)
                     elif kind == 'remove-member':
                         ms = [m for c in C if isinstance(c, E.EClass) for m in siblings(c)
                               if isinstance(m, (E.EStructuralFeature, E.EOperation))]
@@ -856,12 +988,28 @@ def metamodel_edit_scenarios(ctx, out):
                             continue
                         m = rng.choice(ms)
                         dsts = [c for c in C if isinstance(c, E.EClass) and c is not m.eContainer()
-                                and m.name in free_names(c, kind_of(m))]
+                                and member_name_ok(c, kind_of(m), m.name, U, skip=m)]
                         if not dsts:
                             continue
                         dst = rng.choice(dsts)
                         h = ['move-member', tag(m), m.name, tag(dst)]
                         (dst.eStructuralFeatures if isinstance(m, E.EStructuralFeature) else dst.eOperations).append(m)
+                    elif kind == 'add-super':
+                        pairs = [(c, sup) for c in C if isinstance(c, E.EClass) for sup in U
+                                 if sup is not c and super_ok(c, sup, U)]
+                        if not pairs:
+                            continue
+                        c, sup = rng.choice(pairs)
+                        h = ['add-super', tag(c), c.name, tag(sup), sup.name]
+                        c.eSuperTypes.append(sup)
+                    elif kind == 'remove-super':
+                        pairs = [(c, sup) for c in C if isinstance(c, E.EClass) for sup in c.eSuperTypes
+                                 if mro_ok(U, {id(c): [x for x in c.eSuperTypes if x is not sup]})]
+                        if not pairs:
+                            continue
+                        c, sup = rng.choice(pairs)
+                        h = ['remove-super', tag(c), c.name, tag(sup), sup.name]
+                        c.eSuperTypes.remove(sup)
                     elif kind == 'root':
                         if any(spare is r for r in res.contents):
                             h = ['root-remove', tag(spare)]
